@@ -441,6 +441,9 @@ class RemoteWorker(Worker, metaclass=RemoteWorkerMeta):
         except ConnectionClosedError:
             self._result = (False, None)
             logger.debug('Connection to the child has been closed before receiving the result')
+        except Exception:
+            self._result = (False, None)
+            logger.exception('The result sent by the child could not be recreated')
         else:
             self._user_state = recv_msg(self._socket, comment='data: user state')
             logger.debug('User state received')
